@@ -597,6 +597,9 @@ impl Engine for C14 {
                "recovery": {"same_day": sc.victim.today, "later_day_offset": sc.later_day_offset, "extra_dates": sc.extra_dates, "reverse_order": sc.reverse_recovery_order},
                "crash_points": match sc.sample_cuts { None => json!("every operation boundary and every byte offset of every write"), Some(n) => json!(format!("every operation boundary + {} sampled byte offsets", n)) } })
     }
+    fn hang_or_death_is_violation(&self) -> bool {
+        true
+    }
     fn level(&self) -> &'static str {
         "fault_enumeration"
     }
